@@ -62,19 +62,25 @@ let fn_of (t : string) : dm option -> dm option =
   else if t = "wrap" then (fun x -> match x with Some v -> Some (DList [v]) | None -> Some (DList []))
   else let v = dm_of_string (after "c:" t) in (fun _ -> Some v)
 
-type stepspec = { path : xseg list; fn : string; cp : bool; fault : bool }
+(* fault = the storage refuses every write of this transform ("!o", "!c", "!w<k>", "!s<k>");
+   rfault = it refuses every load ("!rk" with SkipMe, "!re" with a plain error) *)
+type stepspec = { path : xseg list; fn : string; cp : bool; fault : bool; rfault : bool }
 let parse_step (t : string) : stepspec =
   match String.split_on_char ',' t with
-  | [p; f; c] -> { path = parse_path p; fn = f; cp = starts_with "1" c; fault = String.contains c '!' }
+  | [p; f; c] ->
+    let rf = (match split_on "!r" c with [_; _] -> true | _ -> false) in
+    { path = parse_path p; fn = f; cp = starts_with "1" c; fault = String.contains c '!' && not rf; rfault = rf }
   | _ -> failwith ("bad step " ^ t)
 
 (* one step of the model under quirks q: outcome text (with the callback log) and the continuation *)
 let model_step mklink (q : quirks) (st : (n list * dm) list) (cur : dm) (s : stepspec)
   : string * (dm * (n list * dm) list) option =
-  match focused_transform_segs rfc_ltb mklink q (fn_of s.fn) s.cp s.fault fuel st cur s.path with
+  (* a storage that refuses every load is, for the length of this transform, a storage holding no block: the
+     model runs on the empty store (nothing can be stored either: a Store only follows a successful load) *)
+  match focused_transform_segs rfc_ltb mklink q (fn_of s.fn) s.cp s.fault fuel (if s.rfault then [] else st) cur s.path with
   | Ok (v, (st', log)) ->
     ("ok:" ^ dump v ^ "#cb:" ^ String.concat "," (List.map seen_text log),
-     if has_nil v then None else Some (v, st'))
+     if has_nil v then None else Some (v, if s.rfault then st else st'))
   | Err EPanic -> ("panic", None)
   | Err e -> (err_name e, Some (cur, st))   (* a failed transform leaves root and store as they were *)
 
@@ -143,15 +149,20 @@ let do_ft id blocks root steps links obs =
               | XOk (Some t', seen) ->
                 let v = raw t' in
                 if s.path = [] && not (root_accepts !cur v) then starts_with "err:" outcome
+                else
+                (* a Store is attempted iff the path crosses a link (the SPEC re-links a block) *)
+                let crossed =
+                  match xupdate rfc_ltb (fun _ -> [n_of_int 255]) f s.cp st_final t (render_path s.path) with
+                  | XOk (Some tm, _) -> List.exists (fun (c, _) -> c = [n_of_int 255]) (blocks_of tm [])
+                  | _ -> false in
+                if s.rfault && crossed
+                (* the block behind the link could not be loaded, whatever the loader's error was (SkipMe
+                   included): the target was not reached, so the transform fails as a whole *)
+                then outcome = "err:load"
                 else if
-                  (* a Store is attempted iff the path crosses a link (the SPEC re-links a block); it must
-                     fail when the storage is faulty or a re-encoded block holds a link the codec refuses:
-                     then the transform fails as a whole *)
-                  (let crossed =
-                     match xupdate rfc_ltb (fun _ -> [n_of_int 255]) f s.cp st_final t (render_path s.path) with
-                     | XOk (Some tm, _) -> List.exists (fun (c, _) -> c = [n_of_int 255]) (blocks_of tm [])
-                     | _ -> false in
-                   (s.fault && crossed) || List.exists (fun (_, b) -> has_refused b) (blocks_of t' []))
+                  (* the Store must fail when the storage is faulty or a re-encoded block holds a link the
+                     codec refuses: then the transform fails as a whole *)
+                  (s.fault && crossed) || List.exists (fun (_, b) -> has_refused b) (blocks_of t' [])
                 then outcome = "err:store"
                 else begin
                   (* block structure: every block of the SPEC's tree must be in the store as annotated,
